@@ -87,7 +87,7 @@ def r8_rpc_waits(chk, fx):
                          key="C05/R8 Session::rpc unaudited-wait %s" % short,
                          detail=None if ok else "a wait whose end depends on other callers: with enough requests outstanding (and their reply futures not yet "
                          "polled) this caller waits for ever although the server answers everything")
-    chk.floor("C05/R8 suspension points of Session::rpc", n, 3)
+    chk.floor("C05/R8 suspension points of Session::rpc", n, 2)
 
 
 def r1_freshness(chk, fx):
